@@ -273,7 +273,7 @@ def worker(job):
             # returned plain structure
             R.count("plain_results_compared")
             if not same_plain(got, plain_res):
-                R.violation("returned-structure-differs", "wrapped call returned %r, the undecorated function returns %r" % (got, plain_res), **det)
+                R.violation("returned-structure-differs", "wrapped call returned %s, the undecorated function returns %r" % (repr(got)[:200], plain_res), **det)
                 ok = False
         # every output wire forced equal to the computed wire: outputs unknown, everything else fixed
         snap = recorder.snapshot()
@@ -331,6 +331,8 @@ def same_plain(a, b):
         return type(a) is type(b) and len(a) == len(b) and all(same_plain(x, y) for x, y in zip(a, b))
     if isinstance(b, dict):
         return isinstance(a, dict) and list(a) == list(b) and all(same_plain(a[k], b[k]) for k in b)
+    if hasattr(a, "lc") or hasattr(a, "value"):
+        return False          # a secret object was returned where a plain value is due (never compare those with ==)
     if isinstance(b, str) or isinstance(a, str):
         return a == b
     return a == b
